@@ -133,6 +133,8 @@ class Gen:
             self.send(cid, method_call(s, BUS, BUS_PATH if self.r.random() < 0.93 else "/", "org.freedesktop.DBus.Monitoring",
                                        "BecomeMonitor", "asu", [rules, flags]))
             self.count("monitor")
+            if self.r.random() < 0.3:       # a monitor talking to the connection's own peer filter
+                self.send(cid, method_call(self.serial(cid), None, "/", "org.freedesktop.DBus.Peer", self.r.choice(["Ping", "GetMachineId", "Nope"])))
             return
         if k == "sleep":
             self.ops.append(("sleep",)); self.count("sleep"); self.calls = []
